@@ -38,3 +38,7 @@ func TestVerifC12Random(t *testing.T) {
 func TestVerifC13Decorator(t *testing.T) {
 	vs.Run(t, "C13", func(c *vs.Case) error { return vw.PropC13(c, decoratorFactory, "decorator") })
 }
+
+func TestVerifC16Decorator(t *testing.T) {
+	vs.Run(t, "C16", func(c *vs.Case) error { return vw.PropC16(c, decoratorFactory) })
+}
